@@ -3,6 +3,8 @@ from propsdef import KERNEL, CORR, HARNESS
 PROP = {
     "needs_binary": True,
     "obligations": [
+        "Xt.Props.C18.no_panic_msgsize",
+        "Xt.Props.C18.recursion_bounded",
         "detect_total",
         "Xt.Props.C09.no_panic_input", "Xt.Props.C09.no_panic_ops",
         "Xt.Props.C07.no_fabrication",
